@@ -3,4 +3,5 @@
 V="$(cd "$(dirname "${BASH_SOURCE[0]}")/.." && pwd)"
 "$V/scripts/pre-c20.sh" || exit 2
 if [ -x "$V/scripts/pre-c04.sh" ]; then "$V/scripts/pre-c04.sh" || exit 2; fi
+if [ -x "$V/scripts/pre-c19.sh" ]; then "$V/scripts/pre-c19.sh" || exit 2; fi
 exit 0
